@@ -111,7 +111,7 @@ def mk_doc(ctx: Ctx, allow: set[str]):
                                                  "p_multi_media": 0.0 if "multi_request_media" not in allow else 0.5,
                                                  "opid_shapes": True, "ntags": 3,
                                                  "p_errors": 0.6, "p_error_stream": 0.35,
-                                                 "p_multi_response_media": 0.2, "json_media_variants": True, "p_nullable_response": 0.2})
+                                                 "p_multi_response_media": 0.2, "json_media_variants": True, "p_nullable_response": 0.2, "p_component_refs": 0.3})
     # tag spelling variants: rewrite some tags
     if rng.random() < 0.4:
         for path, item in d.doc["paths"].items():
@@ -125,6 +125,10 @@ def mk_doc(ctx: Ctx, allow: set[str]):
                         rng.shuffle(pair)
                         op["tags"] = pair
                         d.features.add("one_operation_two_tag_spellings")
+                    elif rng.random() < 0.15:
+                        # a second tag that no operation lists first: it must still get a client on APIClient
+                        op["tags"] = [op["tags"][0], rng.choice(["Admin Only", "audit-log", "zz_internal"])]
+                        d.features.add("tag_never_listed_first")
         d.features.add("tag_spelling_variants")
     return d
 
